@@ -365,13 +365,13 @@ def enterDirectChecked (pre : Nat) (ok : Bool) (st : St) : St :=
 
 /-- `Yield` executed by a frame that is not a generator's (only possible at the top level of a
 chunk: `compile_and_run("yield 1")`, or a module with a top-level `yield`): `execute_instructions`
-returns `Ok(value)` with the frames still on the call stack, and the Rust caller (`run`) only
-truncates the registers — the chunk's frame stays (F-C07-4). Not an `Ev`: the theorems quantify over
-executions without it; `C07.run_yield_not_clean` is the negation witness. -/
+returns `Ok(value)` with `ExecutionState::Suspended` and the frames still on the call stack; since
+fix 20565a0 `run` then pops the chunk's frame exactly as on `Err` (F-C07-4) and truncates the
+registers — for the bookkeeping a top-level `Yield` is a `Return` from the chunk's barrier frame
+(`C07.yieldAtTop_eq_ret`), which is how event summaries write it. -/
 def yieldAtTop (st : St) : St :=
   match st.conts with
-  | .loop (.truncate rr) :: conts => ⟨truncate rr st.vm, conts⟩
-  | .loop .propagate :: conts => ⟨st.vm, conts⟩
+  | .loop x :: conts => ⟨exitErr x st.vm, conts⟩
   | _ => st
 
 def step (ev : Ev) (st : St) : St :=
